@@ -62,6 +62,25 @@ pub mod fs {
     pub fn rename(a: &str, b: &str) -> Result<(), IoError> requires false { unimplemented!() }
     #[verifier::external_body]
     pub fn copy(a: &str, b: &str) -> Result<u64, IoError> requires false { unimplemented!() }
+    #[verifier::external_body]
+    pub fn remove_file(p: &str) -> Result<(), IoError> requires false { unimplemented!() }
+    pub use super::File;
+    // opening a file for writing / appending / creation: every way to open through OpenOptions is a file-writing call here
+    pub struct OpenOptions { pub x: u8 }
+    impl OpenOptions {
+        #[verifier::external_body]
+        pub fn new() -> OpenOptions { unimplemented!() }
+        #[verifier::external_body]
+        pub fn append(self, v: bool) -> OpenOptions { unimplemented!() }
+        #[verifier::external_body]
+        pub fn create(self, v: bool) -> OpenOptions { unimplemented!() }
+        #[verifier::external_body]
+        pub fn write(self, v: bool) -> OpenOptions { unimplemented!() }
+        #[verifier::external_body]
+        pub fn truncate(self, v: bool) -> OpenOptions { unimplemented!() }
+        #[verifier::external_body]
+        pub fn open(self, p: &str) -> Result<File, IoError> requires false { unimplemented!() }
+    }
 }
 pub struct File { pub x: u8 }
 impl File {
